@@ -291,3 +291,132 @@ pub fn token(_args: &[String]) -> i32 {
     }
     0
 }
+
+/// `table`: stdin script, cases separated by `RESET`:
+///   NEW <id>                          -> (no output) create RoutingTable
+///   ROUTER <addr>                     -> `OK` add to router set
+///   OFFER <t> G|Q <id> <addr>         -> `OK`
+///   ADDNODES <t> <id> <addr> <named>  -> `OK`  named = comma separated id@addr (may be `-`)
+///   LREQ <t> <id> <addr>              -> `L 0|1`  (1 = node found pingable)
+///   RREQ <t> <id> <addr>              -> `R 0|1`
+///   DUMP <t>                          -> `D <bucket>|<bucket>|...` bucket = slots `S<id>@<addr>` comma separated,
+///                                        S in B(ad) Q G; bad slots print as `B`
+///   CLOSEST <t> <target>              -> `C id@addr,...` in iterator order
+///   CONTACTS <t>                      -> `K good_sorted;questionable_sorted`
+pub fn table(_args: &[String]) -> i32 {
+    use btdht::verif::{Node, NodeHandle, NodeStatus, RoutingTable};
+    let stdin = io::stdin();
+    let stdout = io::stdout();
+    let mut out = io::BufWriter::new(stdout.lock());
+    let mut tb: Option<RoutingTable> = None;
+    fn st(s: NodeStatus) -> char {
+        match s {
+            NodeStatus::Bad => 'B',
+            NodeStatus::Questionable => 'Q',
+            NodeStatus::Good => 'G',
+        }
+    }
+    for line in stdin.lock().lines() {
+        let line = line.unwrap();
+        let p: Vec<&str> = line.split_whitespace().collect();
+        if p.is_empty() {
+            continue;
+        }
+        match p[0] {
+            "RESET" => {
+                tb = None;
+                writeln!(out, "RESET").unwrap();
+            }
+            "NEW" => {
+                tb = Some(RoutingTable::new(parse_id(p[1])));
+            }
+            "ROUTER" => {
+                tb.as_mut().unwrap().routers.insert(parse_addr(p[1]));
+                writeln!(out, "OK").unwrap();
+            }
+            "OFFER" => {
+                set_time(p[1]);
+                let (id, a) = (parse_id(p[3]), parse_addr(p[4]));
+                let n = if p[2] == "G" { Node::as_good(id, a) } else { Node::as_questionable(id, a) };
+                tb.as_mut().unwrap().add_node(n);
+                writeln!(out, "OK").unwrap();
+            }
+            "ADDNODES" => {
+                set_time(p[1]);
+                let n = Node::as_good(parse_id(p[2]), parse_addr(p[3]));
+                let named: Vec<NodeHandle> = if p[4] == "-" {
+                    vec![]
+                } else {
+                    p[4].split(',')
+                        .map(|x| {
+                            let (i, a) = x.split_once('@').unwrap();
+                            NodeHandle::new(parse_id(i), parse_addr(a))
+                        })
+                        .collect()
+                };
+                tb.as_mut().unwrap().add_nodes(n, &named);
+                writeln!(out, "OK").unwrap();
+            }
+            "LREQ" | "RREQ" => {
+                set_time(p[1]);
+                let h = NodeHandle::new(parse_id(p[2]), parse_addr(p[3]));
+                let found = match tb.as_mut().unwrap().find_node_mut(&h) {
+                    Some(n) => {
+                        if p[0] == "LREQ" {
+                            n.local_request()
+                        } else {
+                            n.remote_request()
+                        }
+                        1
+                    }
+                    None => 0,
+                };
+                writeln!(out, "{} {}", &p[0][..1], found).unwrap();
+            }
+            "DUMP" => {
+                set_time(p[1]);
+                let t = tb.as_ref().unwrap();
+                let bs: Vec<String> = t
+                    .buckets()
+                    .map(|b| {
+                        b.iter()
+                            .map(|n| {
+                                let s = n.status();
+                                if s == NodeStatus::Bad {
+                                    "B".to_string()
+                                } else {
+                                    format!("{}{}@{}", st(s), hex::encode(n.id().as_ref()), fmt_addr(&n.addr()))
+                                }
+                            })
+                            .collect::<Vec<_>>()
+                            .join(",")
+                    })
+                    .collect();
+                writeln!(out, "D {}", bs.join("|")).unwrap();
+            }
+            "CLOSEST" => {
+                set_time(p[1]);
+                let t = tb.as_ref().unwrap();
+                let v: Vec<String> = t
+                    .closest_nodes(parse_id(p[2]))
+                    .map(|n| format!("{}@{}", hex::encode(n.id().as_ref()), fmt_addr(&n.addr())))
+                    .collect();
+                writeln!(out, "C {}", v.join(",")).unwrap();
+            }
+            "CONTACTS" => {
+                set_time(p[1]);
+                let (g, q) = tb.as_ref().unwrap().load_contacts();
+                let mut g: Vec<String> = g.iter().map(fmt_addr).collect();
+                let mut q: Vec<String> = q.iter().map(fmt_addr).collect();
+                g.sort();
+                q.sort();
+                writeln!(out, "K {};{}", g.join(","), q.join(",")).unwrap();
+            }
+            other => {
+                eprintln!("bad op {other}");
+                return 2;
+            }
+        }
+    }
+    0
+}
